@@ -11,7 +11,10 @@ import traceback
 def main(argv=None):
   ap = argparse.ArgumentParser()
   ap.add_argument("--prop", required=True)
-  ap.add_argument("--mode", required=True, choices=["search", "shrink", "replay"])
+  ap.add_argument("--mode", required=True,
+                  choices=["search", "shrink", "replay", "fuzz"])
+  ap.add_argument("--runs", type=int, default=1000)
+  ap.add_argument("--corpus", default=None)
   ap.add_argument("--tier", default="quick")
   ap.add_argument("--shard", type=int, default=0)
   ap.add_argument("--nshards", type=int, default=1)
@@ -26,6 +29,8 @@ def main(argv=None):
 
   from vlib import harness  # pylint: disable=g-import-not-at-top
   harness.configure_tf()
+  if args.mode == "fuzz":
+    return fuzz_main(args, harness)
   mod = importlib.import_module("props." + args.prop.lower())
   if hasattr(mod, "selftest"):
     mod.selftest()
@@ -68,6 +73,65 @@ def main(argv=None):
       res["extra"] = mod.extra_stats()
   with open(args.out, "w") as f:
     json.dump(res, f)
+
+
+def fuzz_main(args, harness):
+  """Coverage-guided campaign (atheris / libFuzzer) over the SAME cases.
+
+  Bytes are decoded into case objects by Hypothesis' fuzz_one_input for the
+  module's strategy, the case is judged by the same run_case (semantic oracle
+  inside the target), coverage feedback comes from tensorflow_lattice only.
+  libFuzzer never returns from Fuzz(), so statistics are flushed to --out every
+  100 executions and at the last one.
+  """
+  import atheris  # pylint: disable=g-import-not-at-top
+  with atheris.instrument_imports(include=["tensorflow_lattice"]):
+    import tensorflow_lattice  # pylint: disable=g-import-not-at-top,unused-import
+  from hypothesis import HealthCheck, given, settings  # pylint: disable=g-import-not-at-top
+  mod = importlib.import_module("props." + args.prop.lower())
+  if hasattr(mod, "selftest"):
+    mod.selftest()
+  tier = args.tier
+  strat = mod.fuzz_strategy(tier) if hasattr(mod, "fuzz_strategy") else (
+      mod.strategy(tier))
+  stats = harness.Stats()
+  state = {"calls": 0, "decoded": 0}
+
+  def flush():
+    res = stats.dump()
+    res["fuzz"] = {"executions": state["calls"], "decoded_cases": state[
+        "decoded"], "runs_requested": args.runs, "libfuzzer_seed": args.seed}
+    tmp = args.out + ".tmp"
+    with open(tmp, "w") as f:
+      json.dump(res, f)
+    os.replace(tmp, args.out)
+
+  @settings(database=None, deadline=None,
+            suppress_health_check=list(HealthCheck))
+  @given(strat)
+  def target(case):
+    state["decoded"] += 1
+    stats.record(case, harness.safe_run(mod, case))
+
+  fuzz_one = target.hypothesis.fuzz_one_input
+
+  def test_one_input(data):
+    state["calls"] += 1
+    try:
+      fuzz_one(data)
+    except harness.HarnessError:
+      raise
+    if state["calls"] % 100 == 0 or state["calls"] >= args.runs:
+      flush()
+
+  flush()
+  argv = [sys.argv[0], "-runs=%d" % args.runs, "-seed=%d" % max(1, args.seed),
+          "-max_len=4096", "-print_final_stats=0", "-verbosity=0",
+          "-len_control=0"]
+  if args.corpus:
+    argv.append(args.corpus)
+  atheris.Setup(argv, test_one_input)
+  atheris.Fuzz()
 
 
 if __name__ == "__main__":
